@@ -10,7 +10,9 @@ WSB = [b" ", b"\n", b"\t", b"\r", b"\r\n", b"  "]
 NOSTART = [b for b in range(256) if b not in b" \n\t\r" and b not in b'ntf"-[{0123456789']
 FAVOUR = list(b'}],:.eE+') + [0x0c, 0x0b, 0x00, 0x7f, 0x80, 0xbf, 0xc3, 0xe2, 0xf0, 0xff, 0xfe, 0x61, 0x5c, 0x27]
 PIPELINES = {"plain": [], "select": ["--select=. =v"], "sort": ["--sort-by=."], "group": ["--merge"],
-             "text": ["--output-style=text", "--headers", "--select=. =v", "--select=(size .)=s"], "csv": ["--output-style=csv", "--select=. =v"]}
+             "text": ["--output-style=text", "--headers", "--select=. =v", "--select=(size .)=s"], "csv": ["--output-style=csv", "--select=. =v"],
+             # the ordinals count values, not the malformed regions between them
+             "index": ["--select=&index =i", "--select=&index-in-file =f", "--select=. =v"]}
 HEADER_LINES = {"text": 1, "csv": 1}
 
 
@@ -86,7 +88,7 @@ def check(tier, seed, replay=None):
         chk.notes["model_behaviours_replayed"] = len(recipes)
         n = 300 if quick else 50000
         for i in range(n):
-            pipeline = rnd.choice(["plain", "plain", "select", "sort", "group", "text", "csv"])
+            pipeline = rnd.choice(["plain", "plain", "select", "sort", "group", "text", "csv", "index"])
             nv = rnd.choice([0, 1, 2, 3, 5, 8])
             if pipeline in HEADER_LINES:
                 # the other sink (text / csv printer): scalars that print on one line
